@@ -53,6 +53,18 @@ CLAIMED = {
             "Bounds and gaps: d <= 0 is a recorded known finding; civil-date oracle, EDATE/EOMONTH month arithmetic and YEARFRAC bases 0/1/4 only in the thorough tier (may be inconclusive); "
             "HOUR/MINUTE/SECOND not yet claimed; trusted: CrossHair's datetime model, calendar.monthrange model.",
             "DESIGN.md 4/C17"),
+    "C05": ("model_checking",
+            "CrossHair symbolic execution of the real lazy graph construction and evaluation over enumerated first-evaluation orders and access paths with symbolic workbook constants",
+            "The workbook's constants are solver variables (substituting wrapper); for every enumerated order of first evaluation and every access path (cell, enclosing ranges, "
+            "unbounded column/row ranges on each sheet, list/tuple/generator, sheet-less address, repeat) the real _gen_graph/_make_cells/_evaluate_range code must yield the full-recompute value.",
+            "Bounds: 7 templates (quick) / 10, up to 4 orders each (quick) / all permutations of <=4 formula cells plus 24 sampled (thorough); constants {number, logical, blank}, ints |v|<=99.",
+            "DESIGN.md 4/C05"),
+    "C08": ("model_checking",
+            "trim_graph executed concretely per enumerated (template, inputs, outputs); CrossHair then runs the real set_value/evaluate of the trimmed (and reloaded) model on symbolic input assignments",
+            "Every output of the trimmed model, directly and after yml/pkl/json round trips, is compared with the untrimmed full recompute for all values of two successive input assignments; "
+            "input sets include leaf cells, buried formula cells and ranges, output sets single cells, pairs, ranges and output=input.",
+            "Bounds: 20 enumerated trim cases over 7 templates; inputs {number, logical, blank}, ints |v|<=99; second assignment limited to one or two cells.",
+            "DESIGN.md 4/C08"),
 }
 
 NOT_YET = "check not built yet in this round (machinery under construction); see DESIGN.md section 4"
